@@ -346,9 +346,14 @@ def addFieldLineno (lineno : Int) : Int := lineno - 1
 def rstFieldLineno (base : Int) (c : FieldCaller) (i : Int) : Int := addFieldLineno (callerLine base c i)
 
 /-- A cross-reference inside the *classifier* of a definition-list entry (`name : `Type``): the
-classifier's children are moved into a fresh document (`_add_field('type', arg, type_descr, lineno)`),
-so the reference's only ancestor is a document node without `line`; `get_lineno` ends in 0. -/
-def classifierXrefOffset : Int := getLineno none [⟨none, none⟩]
+classifier's children are moved into a fresh document (`_add_field('type', arg, type_descr, lineno)`)
+whose `line` `_add_field` sets to its `lineno` argument (the entry's 1-based line); the reference's
+only ancestor is that document node (no `rawsource`), so `get_lineno` gives `lineno - 1`. -/
+def classifierXrefOffset (base : Int) (i : Int) : Int :=
+  getLineno none [⟨some (callerLine base .deflistItem i), none⟩]
+
+/-- before pydoctor c88d52b the fresh document had no `line`: `get_lineno` ended in 0 -/
+def classifierXrefOffsetOld : Int := getLineno none [⟨none, none⟩]
 
 /-- which planted constructs are reported: an epytext docstring with a (fatal) markup error is
 re-parsed as plain text, so only its errors are reported -/
